@@ -24,7 +24,9 @@ pub struct CutReader {
     pub cuts: Arc<Vec<usize>>,
     pub intr: Arc<Vec<usize>>,
     pub intr_all: bool,
-    last_fired: Option<usize>,
+    /// offsets at which an Interrupted has already been delivered (each fires once per reader, also
+    /// when a seek brings the position back)
+    fired: std::collections::HashSet<usize>,
     pub interrupts_fired: usize,
 }
 
@@ -34,9 +36,9 @@ impl Read for CutReader {
             return Ok(0);
         }
         if (self.intr_all || self.intr.binary_search(&self.pos).is_ok())
-            && self.last_fired != Some(self.pos)
+            && !self.fired.contains(&self.pos)
         {
-            self.last_fired = Some(self.pos);
+            self.fired.insert(self.pos);
             self.interrupts_fired += 1;
             return Err(io::Error::from(io::ErrorKind::Interrupted));
         }
@@ -63,7 +65,6 @@ impl Seek for CutReader {
             return Err(io::Error::from(io::ErrorKind::InvalidInput));
         }
         self.pos = (new as usize).min(self.data.len());
-        self.last_fired = None;
         Ok(new as u64)
     }
 }
@@ -112,7 +113,7 @@ impl Delivery {
                 cuts: self.cuts.clone(),
                 intr: self.intr.clone(),
                 intr_all: self.intr_all,
-                last_fired: None,
+                fired: Default::default(),
                 interrupts_fired: 0,
             }),
         }
